@@ -24,10 +24,10 @@ static Case gen_case() {
     uint64_t nt = pick(1, MAXT);
     // cfg: threads, logger (0..3 pipeline + background channel, 4 pipeline + foreground channel, 5 no-alloc logger
     // into a memory stream), main also logs (0/1), level
-    c.cfg = {nt, pick(0, 5), pick(0, 1), pick(3, 6)};
+    c.cfg = {nt, pick(0, 5), pick(0, 1), pick(3, 6), chance(30) ? pick(1, 65535) : 0};
     c.ops = op_list(30, [=] {
         switch (weighted({6, 3, 2})) {
-        case 0: return mkop(LINE, {pick(0, nt - 1), pick(1, 6), pick(0, 300)});
+        case 0: return mkop(LINE, {pick(0, nt - 1), pick(1, 6), pick(0, 300), (uint64_t)(chance(6) ? 1 : 0)});
         case 1: return mkop(YIELD, {pick(0, nt - 1), pick(1, 4)});
         default: return mkop(WRITER_DELAY, {pick(0, 5)});
         }
@@ -54,6 +54,9 @@ struct World {
     std::vector<uint64_t> delays;
     size_t di = 0;
     size_t queued_at_cleanup = 0;
+    uint64_t writer_fail_mask = 0;
+    int writer_failures = 0;
+    int format_failures = 0;
 };
 static World *W;
 
@@ -74,6 +77,11 @@ static int writer_write(struct aws_log_writer *, const struct aws_string *out) {
     if (!w.delays.empty()) {
         uint64_t d = w.delays[w.di++ % w.delays.size()];
         for (uint64_t i = 0; i < d; i++) ds::point();
+    }
+    // a writer may fail for one line (disk full, ...): that must not cost any *other* accepted line
+    if (w.writer_fail_mask && ((w.writer_fail_mask >> (w.written.size() % 16)) & 1)) {
+        w.writer_failures++;
+        return aws_raise_error(AWS_ERROR_FILE_WRITE_FAILURE);
     }
     return AWS_OP_SUCCESS;
 }
@@ -96,6 +104,15 @@ static void log_lines(World &w, int t) {
         std::string pad((size_t)(op.arg(2) % 301), (char)('a' + t));
         std::string msg = fmt("t%d:%d:", t, seq) + pad;
         if (t == w.nt && (seq % 3) != 0) {
+            seq++;
+            continue;
+        }
+        if (op.arg(3) % 2 == 1) {
+            // a call whose arguments cannot be formatted (a wide string the "C" locale cannot convert makes vsnprintf
+            // fail): no line is produced for it - and it must not disturb any later call
+            static const wchar_t bad[] = {L'x', (wchar_t)0x100, 0};
+            AWS_LOGF((enum aws_log_level)lv, AWS_LS_COMMON_GENERAL, "t%d:%d:%ls", t, seq, bad);
+            w.format_failures++;
             seq++;
             continue;
         }
@@ -132,6 +149,7 @@ static void run(const Case &c, Ctx &ctx) {
     char *membuf = nullptr;
     size_t memsz = 0;
     bool main_logs = c.c(2) % 2 == 1;
+    w.writer_fail_mask = c.c(4) & 0xffff;
     for (auto &op : c.ops)
         if (op.kind == WRITER_DELAY) w.delays.push_back(op.arg(0) % 6);
     struct aws_allocator *alloc = galloc::full();
@@ -232,6 +250,8 @@ static void run(const Case &c, Ctx &ctx) {
     if (w.queued_at_cleanup) ctx.tag("lines_queued_at_cleanup");
     ctx.tag(background ? "background" : noalloc ? "noalloc_logger_threads" : "foreground");
     if (ds::stats().switches >= 6) ctx.tag("switches_ge_6");
+    if (w.writer_failures) ctx.tag("writer_failed_for_some_line");
+    if (w.format_failures) ctx.tag("call_with_unformattable_argument");
     ctx.nontrivial = (background || noalloc) && w.written.size() >= 3 && (w.queued_at_cleanup > 0 || ds::stats().switches >= 6);
 }
 
